@@ -349,6 +349,47 @@ def search(rep: C.Report, tier: str, broken):
                           {"object": label, "T": Th, "msq_over_T2": probes, "before": before, "after": after, "defining_integrals": want,
                            "other_evaluations_in_between": nscan, "rel_change": dh, "rel_diff_from_defining_integrals": dr},
                           finding_key="C20:history")
+    # independence of separately built default potentials: the owner of ONE default potential (integrals=None, no default interpolation) tabulates
+    # ITS OWN Jb/Jf coarsely on [0, 25] with constant extrapolation (public API); another default potential built before, and one built afterwards,
+    # must still give Stefan-Boltzmann, Boltzmann suppression at m/T = 40 and the defining integrals (negative m^2, arguments beyond 25)
+    try:
+        pOwn, pOther = _potential(), _potential()
+        for J_ in (pOwn.integrals.Jb, pOwn.integrals.Jf):
+            J_.newInterpolationTable(0.0, 25.0, 26)
+            J_.setExtrapolationType(EExtrapolationType.CONSTANT, EExtrapolationType.CONSTANT)
+        others = (("built before", pOther), ("built afterwards", _potential()))
+    except Exception as ex:  # noqa: BLE001
+        rep.count("independent-potentials construction raised " + type(ex).__name__)
+        others = ()
+    for label, po in others:
+        from scipy.special import kv
+        Ti, dBi, dFi = 80.0, np.array([1.0, 3.0]), np.array([4.0, 12.0])
+        pref = Ti ** 4 / (2 * math.pi ** 2)
+        info0 = {"scenario": f"default EffectivePotentialNoResum {label} another default potential tabulated its own integrals on [0,25] "
+                              "(newInterpolationTable(0,25,26), CONSTANT extrapolation)", "T": Ti, "dofsB": dBi.tolist(), "dofsF": dFi.tolist()}
+        spectra = [("SB", [0.0, 0.0], [0.0, 0.0]), ("heavy", [1600.0, 1600.0], [1600.0, 1600.0]), ("generic", [0.37, 4.2], [0.05, 11.3]),
+                   ("generic", [-3.3, 47.0], [1.7, 140.0]), ("generic", [-14.5, -33.0], [62.5, 410.0])]
+        for what, xB, xF in spectra:
+            xB, xF = np.array(xB), np.array(xF)
+            v = float(po.potentialOneLoopThermal((xB * Ti * Ti, dBi, 0, 0), (xF * Ti * Ti, dFi, 0, 0), Ti))
+            rep.case(key=("independent", label, what, tuple(xB), tuple(xF)))
+            rep.count("independent default potentials")
+            if what == "SB":
+                want = -math.pi ** 2 / 90 * (dBi.sum() + 7 / 8 * dFi.sum()) * Ti ** 4
+                bad = not abs(v - want) <= 1e-6 * abs(want)
+            elif what == "heavy":
+                want = pref * float(np.sum(np.concatenate([dBi, dFi]) * 1.05 * 1600.0 * kv(2, 40.0)))      # bound on |V|
+                bad = not (abs(v) <= want + 1e-7 * Ti ** 4 and v <= 1e-9 * Ti ** 4)
+            else:
+                want = pref * (sum(d * R.ref_J(m, True) for m, d in zip(xB, dBi)) + sum(d * R.ref_J(m, False) for m, d in zip(xF, dFi)))
+                bad = not abs(v - want) <= 2e-6 * Ti ** 4 * (1 + dBi.sum() + dFi.sum())
+            if bad:
+                rep.violation("a default-constructed potential no longer evaluates the defining thermal integrals after ANOTHER potential configured its own "
+                              f"integrals ({what}: " + {"SB": "not Stefan-Boltzmann", "heavy": "m/T=40 not Boltzmann suppressed", "generic": "differs from T^4/(2 pi^2) sum n J"}[what] + ")",
+                              dict(info0, msqB_over_T2=xB.tolist(), msqF_over_T2=xF.tolist(), potential=v, expected_or_bound=want, potential_over_T4=v / Ti ** 4,
+                                   how="p1 = V(); p2 = V(); p1.integrals.Jb/Jf.newInterpolationTable(0,25,26) + setExtrapolationType(CONSTANT, CONSTANT); "
+                                       "p2.potentialOneLoopThermal(...) (and p3 = V() built afterwards) vs harness/thermal_ref"),
+                              finding_key="C20:independent-potentials")
     # the caller's spectrum arrays, built once and used for a scan over (scalar) temperatures: they must come back unmodified, and the value at
     # a temperature must not depend on the temperatures asked before
     for label, mk in (("Integrals()", lambda: _potential(integrals=Integrals())), ("shipped tables", lambda: _potential(default=True))):
